@@ -78,6 +78,15 @@ def make_grid(g):
         pts = kw.pop('points')
         pts = [float(p) for p in pts]
         return FunctionGrid(lambda N: list(pts), **kw)
+    if kind == 'density':
+        # DensityGrid(1 + tau): nodes come from a numeric integrator (not encodable) - used by relational checks only
+        from rockit import DensityGrid
+        import casadi as _ca
+        tau = _ca.MX.sym('tau')
+        return DensityGrid(1 + tau, **kw)
+    if kind == 'dense_edges':
+        from rockit import DenseEdgesGrid
+        return DenseEdgesGrid(**kw)
     raise ValueError(kind)
 
 
